@@ -1,11 +1,12 @@
 (* Property C17 — every constructible object serialises to well-formed GeoJSON, by appending.
-   PARTIAL: the append contract and the writers' case analysis are kernel-checked
-   for an arbitrary number formatter; that the byte-level writers emit exactly the
-   text of a JSON tree (hence valid JSON with the right "type" and nesting) is
-   checked on every run: the model's bytes equal the implementation's byte for
-   byte, and the implementation's bytes are re-tokenized by two independent
-   tokenizers and inspected (flags). *)
-From GJ Require Import Base JsonConst Json JsonProofs.
+   Kernel-checked for an arbitrary number formatter: the append contract, and that
+   the byte-level writers (literal prefixes, member splice, position-index
+   threading) emit exactly the text of a JSON object tree whose first member is
+   "type" with the kind's name, a text of the RFC 8259 grammar.  That the model's
+   writers are the Go writers is checked on every run byte for byte; that Parse
+   and the constructors only build well-formed objects (the theorem's hypotheses)
+   is exercised by the same streams, not proved. *)
+From GJ Require Import Base JsonConst Json JsonProofs EmitProofs JsonGrammar EmitWellFormed.
 
 (* AppendJSON(prefix) = prefix followed by exactly JSON()'s bytes, the prefix untouched *)
 Theorem C17_append_contract : forall (fmt : Z -> list Z) dst o,
@@ -30,5 +31,22 @@ Theorem C17_rect_as_polygon : forall (fmt : Z -> list Z) mn mx,
   emit fmt (JRect mn mx) = emit fmt (JPoly [fpt_rect_points mn mx] None).
 Proof. exact emit_rect_as_polygon. Qed.
 
+(* MAIN: for every well-formed object (stored member texts are objects with at least one member; Multi*
+   children are geometries) whose printed ordinates exist (no out-of-range read of the z/m array) and whose
+   member texts are lexically JSON, and for every formatter that prints JSON numbers, the bytes written are a
+   text of the RFC 8259 grammar (no whitespace) for an object whose first member is "type": <the kind's name> *)
+Theorem C17_bytes_are_a_json_object : forall (fmt : Z -> list Z), (forall k, num_lexeme (fmt k) = true) ->
+  forall o, wf_o o -> lex_o o ->
+  json_text (emit fmt o) (emit_jv fmt o) /\
+  exists rest, emit_jv fmt o = JObj ((key s_type, str_jv (type_name o)) :: rest).
+Proof. exact emit_wellformed. Qed.
+(* the byte-level writers print exactly a JSON tree *)
+Theorem C17_writers_print_a_tree : forall (fmt : Z -> list Z) o, wf_o o -> emit fmt o = print_min (emit_jv fmt o).
+Proof. exact emit_is_print. Qed.
+(* the grammar contains the minified print of every lexically well-formed tree *)
+Theorem C17_print_is_json : forall v, lex_ok v = true -> json_text (print_min v) v.
+Proof. exact print_min_is_json. Qed.
+
+Print Assumptions C17_bytes_are_a_json_object.
 Print Assumptions C17_append_contract.
 Print Assumptions C17_rect_as_polygon.
